@@ -334,6 +334,10 @@ func (h *vHist) multiDel(k1, k2 string) {
 	var objs []ObjID
 	if v, ok := h.pick(k1, "newest"); ok {
 		objs = append(objs, ObjID{Key: k1, Version: v.raw, Counter: v.counter})
+		// the same key once more with another version id (what bucket-emptying tools send)
+		if w, ok := h.pick(k1, "oldest"); ok && w.counter != v.counter && h.c.Rng.Intn(2) == 0 {
+			objs = append(objs, ObjID{Key: k1, Version: w.raw, Counter: w.counter})
+		}
 	}
 	objs = append(objs, ObjID{Key: k2})
 	h.noteWrite(k2)
@@ -563,7 +567,7 @@ func (h *vHist) listv(q VerListReq, finger string) VerListObs {
 	} else if lo.Obs != model {
 		h.c.mismatch(Mismatch{Kind: "model", Backend: "mem", Case: cs, Impl: lo.Obs, Model: model, Spec: spec, Finger: fp})
 	}
-	if lo.OK && !q.HasDelim && q.KeyMarker == "" && q.ClampedMaxKeys >= 1000 && strings.HasPrefix(spec, "specversions") {
+	if lo.OK && !(q.HasDelim && q.Delim != "") && q.KeyMarker == "" && q.ClampedMaxKeys >= 1000 && strings.HasPrefix(spec, "specversions") {
 		// unpaginated: exactly the remaining versions and markers, one latest per key, the right one
 		got := sortedVerEntries(lo)
 		want := spec
@@ -579,7 +583,7 @@ func (h *vHist) listv(q VerListReq, finger string) VerListObs {
 			h.c.mismatch(Mismatch{Kind: "spec", Backend: "mem", Case: cs, Impl: got, Model: model, Spec: want, Finger: fp})
 		}
 	}
-	if lo.OK && !q.HasDelim && !q.HasPrefix && q.KeyMarker == "" && strings.HasPrefix(spec, "specversions") {
+	if lo.OK && !(q.HasDelim && q.Delim != "") && !q.HasPrefix && q.KeyMarker == "" && strings.HasPrefix(spec, "specversions") {
 		// a first page: truncated exactly when entries remain beyond it
 		nSpec := 0
 		if body := strings.TrimPrefix(spec, "specversions "); body != "-" {
@@ -733,7 +737,7 @@ func runC13(c *Ctx) {
 		total := len(lo.Entries)
 		// prefixes / delimiters
 		for _, pd := range [][2]string{{"k", ""}, {"", "/"}, {"k", "/"}, {"m/", "/"}, {"zz", ""}} {
-			h.listv(VerListReq{HasPrefix: pd[0] != "", Prefix: pd[0], HasDelim: pd[1] != "", Delim: pd[1], ClampedMaxKeys: 1000}, "list-prefix")
+			h.listv(VerListReq{HasPrefix: pd[0] != "", Prefix: pd[0], HasDelim: pd[1] != "" || h.c.Rng.Intn(2) == 0, Delim: pd[1], ClampedMaxKeys: 1000}, "list-prefix")
 		}
 		// page sizes: every walk along the returned markers, without and with prefix / delimiter
 		for mk := 1; mk <= total+1 && mk <= 6; mk++ {
